@@ -208,7 +208,7 @@ def c05(tier, seed):
     try:
         rng = random.Random(seed)
         cases = gen.systematic_flat() + gen.systematic_corner() + gen.random_flat(rng, 20 if tier == "quick" else 300)
-        cases += [c for c in gen_blocks.systematic_blocks() if "Nest" not in c["tags"]]
+        cases += [c for c in gen_blocks.systematic_blocks() + gen_blocks.weighted_blocks() if "Nest" not in c["tags"]]
         cases += gen.weighted_cases(rng, 10 if tier == "quick" else 150)
         cases += common.witness_cases("C05")
         maxl = 500 if tier == "quick" else 12000
